@@ -1076,7 +1076,7 @@ func TestVerifC15(t *testing.T) {
 		// the case id names scenario and bound; find the scenario whatever pass it is in now
 		nm := strings.SplitN(r.ReplayCase(), "|", 2)[0]
 		passes = nil
-		for _, ps := range c15passes(true) {
+		for _, ps := range c15passes(false) { // the quick tier lists every scenario
 			for _, sc := range ps.scns {
 				if strings.HasPrefix(nm, sc.name+"@") {
 					b, _ := strconv.Atoi(strings.TrimPrefix(nm, sc.name+"@"))
@@ -1102,6 +1102,15 @@ func TestVerifC15(t *testing.T) {
 					return
 				}
 				execs++
+				if r.Replaying() {
+					for _, o := range res.obs {
+						t.Logf("replay %s: request %d: %s", name, o.id, c15obsKey(o))
+					}
+					for _, o := range res.tls {
+						t.Logf("replay %s: tls look-ups: %+v", name, *o)
+					}
+					t.Logf("replay %s: final server data conf %s, balancer RetryMax %d, steps %d, race reports %d", name, res.finalVer, res.finalRM, out.Steps, out.Races)
+				}
 				env.check(r, sc, id, out, res, se.newRaces)
 				r.Transitions(int64(out.Steps))
 				k := ""
